@@ -262,6 +262,12 @@ def run(ck: vlib.Check):
                 hints = model_hints(model_cls)
                 for rep in range(reps):
                     nums = {a: gen_value_for(rng, probe, tp, in_range=(rep % 6 != 5)) for a, tp in hints.items()}
+                    if rep in (1, 2):
+                        # an OPTIONAL number given explicitly as 0, once with and once without sound metadata in the
+                        # context: 0 is a value, not "missing"
+                        for a, tp in hints.items():
+                            if typing.get_origin(tp) is typing.Union and int in typing.get_args(tp):
+                                nums[a] = 0
 
                     def f(nums=nums, model_cls=model_cls, hints=hints, tcls=tcls, flds=flds, rep=rep):
                         rich = model_cls(**{a: probe.construct(hints[a], n) for a, n in nums.items()})
